@@ -100,3 +100,27 @@ def random_jobs(n=100, seed=1, opts=0, ppm=0, dirs=None, fonts=None):
             for d in (dirs if dirs is not None else [rtl]):
                 out.append({"font": os.path.join(F, font), "cps": cps, "dir": d, "opts": opts, "ppm": ppm, "id": "random:%s:%d:d%d" % (font, k, d)})
     return out
+
+
+
+def manytables_jobs(tmp, opts=0, counts=(39, 40, 41, 64)):
+    """Padauk with additional (ignored) tables so that the sfnt directory has exactly `count` entries: file faces look
+    tables up in that directory, callback faces do not."""
+    from fontgen import sfnt
+    d = os.path.join(tmp, "manytables")
+    os.makedirs(d, exist_ok=True)
+    S = sfnt.Sfnt(os.path.join(F, "Padauk.ttf"))
+    base = {t: S.table(t) for t in S.order}
+    out = []
+    for n in counts:
+        p = os.path.join(d, "padauk_%dtables.ttf" % n)
+        if not os.path.exists(p):
+            t = dict(base)
+            k = 0
+            while len(t) < n:
+                t["zz%02d" % k] = bytes([k & 0xFF, 1, 2, 3])
+                k += 1
+            open(p, "wb").write(sfnt.build_sfnt(t))
+        for cps in ([0x1000, 0x1031, 0x102C], [0x1000, 0x103C, 0x102D, 0x102F, 0x20, 0x1019]):
+            out.append({"font": p, "cps": cps, "dir": 0, "opts": opts, "ppm": 0, "id": "manytables%d:%d" % (n, len(cps))})
+    return out
